@@ -27,7 +27,8 @@ BASES = {
     # run, two steps, condition false, outer true -> second epoch with one step, then the end
     "run2": ("r", "1111" + "11110" + "11" + "1111" + "110" + "10" + "11"),
     # run, condition false at once (epoch without steps), outer true -> second epoch, one step, end
-    "run0": ("r", "1111" + "0" + "11" + "1111" + "110" + "10" + "11"),
+    # (here initialization_step() returns false both times: the recursion ignores its result)
+    "run0": ("r", "1110" + "0" + "11" + "1110" + "110" + "10" + "11"),
 }
 
 
@@ -164,9 +165,14 @@ def run_parallel(binary, lines, chunk=150, stop_after=None):
 def parse_words(words):
     """-> chronological list of ('cmd', c) / ('I',) / ('S', k) / ('E', k) / ('J', run, step) / ('obs', place, run, step)"""
     ev = []
+    place = "0"
     for w in words:
         f = w.split(":")
         tok = f[0]
+        if tok in ("a0", "a1") and place == "c" and len(f) >= 5:
+            ev.append(("rc", tok == "a1"))
+        if len(f) >= 5:
+            place = f[2]
         if w in ("hang", "j:hang"):
             ev.append(("hang",))
             continue
@@ -209,6 +215,8 @@ def clauses(ev):
     joined = False
     ended = False                  # the thread is known to have reached its final store
     run_after_end = False
+    expired = False                # run_condition() returned false since the last Init
+    leaving = False                # the thread has left the recursion's loop
     for e in ev:
         k = e[0]
         if k == "cmd":
@@ -229,6 +237,7 @@ def clauses(ev):
                 bad.append("init-after-join")
             nxt = 0
             reqs = []
+            expired = False
             rb = [{"a": "b", "ar": "ok", "c": "ok"}.get(m, m) for m in rb]
         elif k == "S":
             if joined:
@@ -260,10 +269,19 @@ def clauses(ev):
             if ended:
                 run_after_end = True
         elif k == "J":
-            joined = ended = True
+            joined = ended = leaving = True
             if e[1] != 0 and not run_after_end:
                 bad.append("running-after-join")
+        elif k == "rc":
+            if not e[1]:
+                expired = True
         elif k == "obs":
+            if e[1] in ("4", "f") and not leaving and reqs and not td and not expired:
+                # the thread leaves although a reset/reboot is pending, the run condition holds and
+                # no teardown was requested: the request can never be honoured by a new epoch
+                bad.append("reset-never-honoured-thread-ends")
+            if e[1] in ("4", "f"):
+                leaving = True
             if e[1] == "f":
                 ended = True
             if joined and e[2] != 0 and not run_after_end:
